@@ -177,6 +177,50 @@ fn alter_token(t: &Token, arg: i64, bound: usize, extreme_ok: bool) -> Token {
     }
 }
 
+/// Extent (in tokens) of the value that starts at `pos`: a scalar is one token, a compound value
+/// runs to its matching end marker, a newtype wrapper includes the value it wraps. Returns 0 for
+/// tokens that do not start a value (end markers, field names).
+pub fn group_extent(tokens: &[Token], pos: usize) -> usize {
+    fn closer(t: &Token) -> Option<u8> {
+        Some(match t {
+            Token::Seq { .. } => 0,
+            Token::Tuple { .. } => 1,
+            Token::TupleStruct { .. } => 2,
+            Token::Map { .. } => 3,
+            Token::Struct { .. } => 4,
+            Token::TupleVariant { .. } => 5,
+            Token::StructVariant { .. } => 6,
+            _ => return None,
+        })
+    }
+    fn is_end(t: &Token) -> bool {
+        matches!(t, Token::SeqEnd | Token::TupleEnd | Token::TupleStructEnd | Token::MapEnd | Token::StructEnd | Token::TupleVariantEnd | Token::StructVariantEnd)
+    }
+    let Some(t) = tokens.get(pos) else { return 0 };
+    if is_end(t) || matches!(t, Token::Field(_) | Token::SkippedField(_)) {
+        return 0;
+    }
+    if matches!(t, Token::NewtypeStruct { .. } | Token::NewtypeVariant { .. } | Token::Some) {
+        let inner = group_extent(tokens, pos + 1);
+        return if inner == 0 { 0 } else { 1 + inner };
+    }
+    if closer(t).is_none() {
+        return 1;
+    }
+    let mut depth = 0usize;
+    for (i, t) in tokens.iter().enumerate().skip(pos) {
+        if closer(t).is_some() {
+            depth += 1;
+        } else if is_end(t) {
+            depth -= 1;
+            if depth == 0 {
+                return i - pos + 1;
+            }
+        }
+    }
+    0
+}
+
 /// Number of serialized entity identifiers in a token stream (for the `alias` fault).
 pub fn identifier_count(s: &Stream) -> usize {
     match s {
@@ -186,6 +230,14 @@ pub fn identifier_count(s: &Stream) -> usize {
 }
 
 /// Number of distinct alterations defined for the token at `pos`.
+/// Does a compound value (more than one token) start at `pos`?
+pub fn is_group_start(s: &Stream, pos: usize) -> bool {
+    match s {
+        Stream::Tokens { tokens, .. } => group_extent(tokens, pos) > 1,
+        Stream::Json(_) => false,
+    }
+}
+
 pub fn alt_variants(s: &Stream, pos: usize) -> usize {
     match s {
         Stream::Tokens { tokens, .. } => match tokens.get(pos) {
@@ -239,6 +291,46 @@ pub fn apply_fault(s: &mut Stream, f: &StreamFault) -> bool {
                     let to = (f.arg.rem_euclid(n as i64)) as usize % tokens.len().max(1);
                     tokens.insert(to.min(tokens.len()), t);
                     true
+                }
+                "delgroup" | "dupgroup" | "swapgroup" => {
+                    // Whole values (an element of a sequence, a row, a column, an identifier, a
+                    // section) deleted, duplicated or exchanged with the following sibling;
+                    // declared lengths are left as they were.
+                    let ext = group_extent(tokens, pos);
+                    if ext == 0 || ext == n {
+                        return false;
+                    }
+                    match f.kind.as_str() {
+                        "delgroup" => {
+                            tokens.drain(pos..pos + ext);
+                            true
+                        }
+                        "dupgroup" => {
+                            let copy: Vec<Token> = tokens[pos..pos + ext].to_vec();
+                            for (i, t) in copy.into_iter().enumerate() {
+                                tokens.insert(pos + ext + i, t);
+                            }
+                            true
+                        }
+                        _ => {
+                            let next = pos + ext;
+                            let ext2 = group_extent(tokens, next);
+                            if ext2 == 0 {
+                                return false;
+                            }
+                            let a: Vec<Token> = tokens[pos..next].to_vec();
+                            let b: Vec<Token> = tokens[next..next + ext2].to_vec();
+                            if a == b {
+                                return false;
+                            }
+                            let mut merged = b;
+                            merged.extend(a);
+                            for (i, t) in merged.into_iter().enumerate() {
+                                tokens[pos + i] = t;
+                            }
+                            true
+                        }
+                    }
                 }
                 "alias" => {
                     // Make the index of the `pos`-th serialized entity identifier equal to that of
